@@ -13,6 +13,10 @@ import (
 
 func resetInmem() { inmem.VerifReset() }
 
+func dropInmem(key string) { inmem.VerifDrop(key) }
+
+func snapshotInmem() map[string]inmem.VerifEntry { return inmem.VerifSnapshot() }
+
 func init() {
 	checks["C17"] = func(rep *Report, tier string, seed int64) {
 		rep.Rule = "(a) sequential differential: seeded random sequences of all commands (multi-key and quiet gets, 6-key alphabet, TTLs from {0, small, large relative, 30 days -1/0/+1, absolute future, absolute past, absolute far future}) through the real server over text and binary on L1-only stacks whose L1 is the in-memory backend (with and without the locking wrapper); every reply is judged by the single-map specification and compared byte for byte with the Lean model (inmem handler over the reference map); directed cases: add on an existing key, delete / touch / replace / append of a missing key, an entry stored with an expiry in the past; (b) concurrent use of the ONE shared instance by 2..32 goroutines through the handler interface (built with the race detector): each goroutine owns a private key set on which its own results must equal the sequential expectation, and all of them also read and write shared and missing keys; a data race report or a fatal runtime error fails the check; distinct = distinct sequences in which a reply carried a value + distinct (goroutines, round) pairs; (c) atomicity of the conditional commands on the shared backend: 8 goroutines released together add the same absent key (exactly one is told 'stored' and its value is held), then delete it (exactly one is told 'deleted'), 4000 rounds (thorough 40000)"
